@@ -898,6 +898,10 @@ func genCorpus() {
 			{"external test package without derive calls", map[string]string{"u.go": good, "x_test.go": xNo}},
 			{"external test package with derive calls", map[string]string{"u.go": good, "x_test.go": xCalls}},
 			{"external and in-package test files", map[string]string{"u.go": good, "in_test.go": in, "x_test.go": xNo}},
+			{"external test package with two conflicting derive calls of one name", map[string]string{"u.go": good,
+				"x_test.go": "package PKG_test\n\nimport (\n\t\"testing\"\n\n\tp \"fsx/PKG\"\n)\n\n// TestX must stay as it is written.\nfunc TestX(t *testing.T) {\n\tif !deriveEqual(&p.S{}, &p.S{}) || !deriveEqual(\"x\", \"y\") { // two argument type lists, one name\n\t\tt.Fatal()\n\t}\n}\n"}},
+			{"external test package with a duplicate", map[string]string{"u.go": good,
+				"x_test.go": "package PKG_test\n\nimport \"testing\"\n\nfunc TestX(t *testing.T) {\n\tif !deriveEqual([]int{1}, []int{1}) || !deriveEqualAgain([]int{1}, []int{1}) {\n\t\tt.Fatal()\n\t}\n}\n"}},
 		} {
 			modes := bystanders(v.files)
 			add(caseT{Kind: "success", What: v.what, Gofmt: true}, v.files, modes)
